@@ -418,6 +418,17 @@ def check_all(case, props=None):
                     add("C06", "lower_priority_started", started=x, cp_started=v.cp[i], better=ids[y], cp_better=v.cp[y],
                         ready=[ids[q] for q in r])
                     break
+            else:
+                # under the controller a dispatched node is inside its function before the scheduler can be told about any
+                # further completion (the patched waits settle first): if its ACTUAL start comes later - it sat in the pool's
+                # FIFO queue - the nodes that became ready meanwhile are judged against it as well
+                if any(e["kind"] == "CHOICE" for e in v.evs) and x in v.xenter and x not in v.inline and v.xenter[x] > s:
+                    r2 = [y for y in ready_certain(v.xenter[x]) if y != i]
+                    for y in r2:
+                        if v.cp[y] > v.cp[i] and not (ids[y] in v.decision and v.decision[ids[y]] <= v.xenter[x]):
+                            add("C06", "queued_node_started_while_higher_priority_node_ready", started=x, cp_started=v.cp[i],
+                                better=ids[y], cp_better=v.cp[y], dispatched_at=s, actually_started_at=v.xenter[x])
+                            break
 
     # ---------------------------------------------------------------- C08 no idling
     if v.ref is not None and not v.bypassed:
